@@ -381,11 +381,11 @@ func genWriterCase(t *rapid.T) WriterCase {
 func TestC05_Random(t *testing.T) {
 	rec := evid.New("C05", "c05_random", "rapid: writer histories of 1..80 ops {Malloc n (filled at once), Malloc n filled lazily (in reverse order, by a later fill op or right before Flush), WriteBinary, Flush, WrittenLen} with n from {0,1,3,100,4095,4096,4097,8192,12289,40000,-1,uniform}; io.Writer sinks failing at the k-th Write (k=0..4, short counts) and bytes-backed writers over nil / empty / partially filled / full / power-of-two targets; non-trivial = a lazily filled region was live while the unflushed size crossed 4096 (growth), or calls were made after a sink failure")
 	defer rec.Flush()
-	runRapid(t, rec, "c05_writer_history", evid.Pick(30000, 40000), genWriterCase, checkWriterCase)
+	runRapid(t, rec, "c05_writer_history", evid.Pick(30000, 300000), genWriterCase, checkWriterCase)
 }
 
 func TestC05_Exhaustive(t *testing.T) {
-	L := evid.Pick(3, 4)
+	L := evid.Pick(3, 5)
 	rec := evid.New("C05", "c05_exhaustive", fmt.Sprintf("all programs of length 1..%d over a 12-symbol alphabet {malloc 0/1/4096/4097/12289, lazy 3/4096, writebin 0/1/4097, flush, fill} x (io.Writer sink failing at Write k for every k = 0..number of flushes, short count 0/1) and x 5 bytes-writer targets (nil, empty cap 16, partial 5/16, full 8/8, partial 100/8192); distinct by construction", L))
 	defer rec.Flush()
 	alpha := []WOp{{"malloc", 0}, {"malloc", 1}, {"malloc", 4096}, {"malloc", 4097}, {"malloc", 12289}, {"lazy", 3}, {"lazy", 4096},
